@@ -14,7 +14,7 @@ ID = "C13"
 LEVEL = "exploration"
 TECHNIQUE = "Hypothesis-generated screens biased to boundary layouts x every shipped operator; per-operator validity predicates and small reference simulations (heap merge, halving, optimal size)"
 RULE = (
-    "screens with several samples of few experiments each, samples with exactly the size limit, single-agent rows, one or many plates; each case runs "
+    "screens (two treatment slots; one in four with three, so partial combinations occur) with several samples of few experiments each, samples with exactly the size limit, single-agent rows, one or many plates; each case runs "
     "SampleSegregating, Pairwise, FixedSize, OptimalSize, NPlatePerCellLine, MergeMin, MergeTopBottom (the latter three on single-sample-per-plate layouts), "
     "the sparse-cover initial plate (both flag values, on the fully observed screen) and the combination filter, with drawn parameters/seed. Operators that "
     "raise are counted, not flagged. Non-trivial = >=2 samples at or below the size limit (segregating) or >=2 samples to drop (n-plate) or >=3 plates in one "
@@ -35,7 +35,7 @@ def budgets(tier):
 @st.composite
 def _case(draw):
     if draw(st.booleans()):
-        sc = draw(retro.retro_screen(single_sample_plates=True, n_rows=(1, 20)))
+        sc = draw(retro.retro_screen(single_sample_plates=True, n_rows=(1, 20), arity=draw(st.sampled_from([2, 2, 2, 3]))))
     else:  # few samples with many plates of diverse sizes (merge smoothers need >=4 plates in one sample)
         sc = draw(retro.retro_screen(single_sample_plates=True, n_rows=(8, 26), n_samples=(1, 2), n_plates=(3, 7)))
     return {
@@ -51,7 +51,7 @@ def _case(draw):
         "mixed_layout": draw(st.booleans()),
         "pairwise_screen": draw(retro.pairwise_screen()) if draw(st.booleans()) else None,
         # a small screen of its own for the combination filter (treatments that occur only in single-agent rows are frequent here)
-        "filter_screen": draw(S.simple_screen(n_samples=(1, 2), n_treat=(2, 6), n_rows=(1, 6), n_plates=(1, 2))),
+        "filter_screen": draw(S.simple_screen(n_samples=(1, 2), n_treat=(2, 6), n_rows=(1, 6), n_plates=(1, 2), arity=draw(st.sampled_from([2, 2, 3])))),
     }
 
 
